@@ -1586,6 +1586,7 @@ type plan struct {
 	// slice modes
 	spare   int
 	sprefix []sop
+	nprefix []nop // nest mode
 }
 
 func (p plan) enumerated() bool {
@@ -1691,6 +1692,7 @@ func plans() []plan {
 	}
 	ps = append(ps, slicePlans()...)
 	ps = append(ps, cancelStormPlans()...)
+	ps = append(ps, nestPlans()...)
 	// look: a context that ends itself on its k-th look, as an initial member in every position and as an Add argument
 	lookL := mon.Pick(2, 3)
 	var look12, look3 []string
@@ -1878,6 +1880,7 @@ func TestCheck(t *testing.T) {
 		"(burst) %d seeded sequences of 4..14 operations issued back to back with no quiescence; (randhook) %d seeded lock-step sequences of 6..16 operations on up to 4 initial contexts with a seeded park (hit 1..5, 1..3 placed operations); (racing) %d seeded histories of 2..6 phases whose 1..5 operations are released together from separate goroutines, biased to Add racing the cancellation of the last live member; the seeded modes use the extended alphabet and all initial kinds (also the same context passed twice). "+
 		"(look, enumerated) initial lists of 1..3 contexts over {live, ended, a context that ends itself on its 1st/2nd/3rd/4th Err()/Done() look} with at least one such context, in every position, x every sequence of 0..2 (thorough 0..3; one less for 3 initial contexts) operations over the classic alphabet plus Add of such a context (k=1..4); (storm, seeded) 1..4 members (one case in 40: 2000 members), some of them with slow Err()/Done(), are cancelled by 1..3 other goroutines released on a barrier together with the call of NewPool, on 4 Ps, then 0..3 seeded operations; a context that had ended by the harness's log when NewPool returned may or may not have been taken (not protected, only the upper bound of Size counts it), one still live then was live all along; racing phases also end the argument of an Add from another goroutine while that Add runs. "+
 		"(cancelstorm; cancelstorm_test.go; real goroutines, no bubble, run by the -race build and by a plain build) per case a few hundred fresh pools with one live member: 2..6 goroutines loop Add(live ctx), 0..2 readers loop Size()/Done(), after a seeded number of yields one goroutine calls Cancel (in a third of the cases a second Cancel concurrently); after every call has returned Size() must be 0, Done() closed, a further Cancel must not panic and a further Add must leave Size() at 0; a reader must never see Done() before Cancel was called nor a non-zero Size() after Cancel returned. "+
+		"(nest, enumerated; nest_test.go) pools as members of pools: pool 0 over 0..2 initial leaves x every sequence of 0..3 (thorough 0..4) operations over {cancel a leaf, Add a live/ended leaf to any pool, create a pool from a fresh leaf, create a pool by NewPool(existing pool), pA.Add(pB) for any two pools that keeps the nesting acyclic, Cancel any pool}, up to 3 pools (two or three levels, one pool in two outer pools), quiescent between operations; the reference treats a pool that is a member as ONE member that has ended iff that pool is done by the same reference (fixpoint), Size counts it as 1; every pool's Done()/Size() is compared with it after every step; (randnest, seeded) 5..11 such operations, in half of the cases with runs of Add-type calls issued concurrently from separate goroutines. "+
 		"(slice, enumerated; slice_test.go) the initial contexts are handed over as a caller-owned slice with spare capacity, NewPool(s...): initial slices of 0..3 live/ended contexts (ended ones in front too) x spare capacity 0..2 (thorough 0,1,2,4) x every sequence of 0..3 (thorough 0..4) operations over {cancel(h), Add live/ended to pool 1 or 2, build a second pool from the same slice, the caller overwrites its first/last element, reverses its slice, appends to it, Cancel pool 1 or 2}, quiescent between operations; each pool is judged against its own membership (Done() closed iff it was cancelled or all ITS members ended; Size() = its member count) and the caller's slice must hold, over its whole capacity, exactly what the caller put there after every NewPool/Add; (randslice) seeded sequences of 4..10 such operations on slices of 0..4 contexts (also Background) with spare capacity 0..4. "+
 		"Tuples are enumerated without repetition, so distinct = evaluated for the enumerated modes; seeded cases are distinct by their operation list. Non-trivial = the pool was observed live at a quiescent point (it had a live member) or operations were placed at a hook; a hook case whose hook is not reached before the tail is counted trivial.",
 		sp.seqN, sp.seqL, also, sp.hookN, sp.hookL, sp.hookK, sp.extN, sp.extL, alsoExt, sp.exthookN, sp.exthookL, sp.nBurst, sp.nRandHook, sp.nRacin))
@@ -1891,6 +1894,7 @@ func TestCheck(t *testing.T) {
 		"ctxkind.P", "ctxkind.Q", "deadline.expired_in_virtual_time", "never.pool_live_on_never_ending_member_only", "tail.pool_live_until_cancel", "tail.pool_done_before_cancel", "tail.hour_passed_with_pool_live",
 		"look.fired_during_newpool", "look.fired_during_add", "init.member_ended_during_newpool", "storm.big", "racing.add_races_end_of_its_argument",
 		"cancelstorm.pools.main", "cancelstorm.pools.plain", "cancelstorm.adds_returned_after_cancel_was_called", "cancelstorm.cases_with_concurrent_second_cancel", "cancelstorm.cases_with_readers", "cancelstorm.done_after_cancel",
+		"nest.pool_member_via_add", "nest.pool_member_via_newpool", "nest.inner_membership_changed_after_it_was_added", "nest.inner_cancelled_after_it_was_added", "nest.inner_member_ended_after_it_was_added", "nest.pool_member_of_two_pools", "nest.three_levels", "nest.outer_live_on_inner_pool", "nest.concurrent_phases",
 		"slice.unchanged_checks", "slice.second_pool_from_same_slice", "slice.caller_overwrite", "slice.caller_reverse", "slice.caller_append_into_spare_capacity", "slice.ended_in_front_of_live", "slice.add_while_slice_has_spare_capacity", "slice.pool_checks",
 		"size.checked", "size.zero_after_cancel", "quiescent.checks", "quiescent.live", "racing.phases", "watcher.exited_at_end",
 	})
@@ -1937,6 +1941,10 @@ func countPlans(t *testing.T) {
 			n[pl.mode] += countSlicePlan(pl)
 			continue
 		}
+		if pl.mode == "nest" || pl.mode == "randnest" {
+			n[pl.mode] += countNestPlan(pl)
+			continue
+		}
 		if !pl.enumerated() {
 			n[pl.mode]++
 			continue
@@ -1981,6 +1989,9 @@ func runPlan(t *testing.T, idx int, pl plan) {
 		return
 	case "cancelstorm":
 		runCancelStorm(t, idx)
+		return
+	case "nest", "randnest":
+		runNestPlan(t, idx, pl)
 		return
 	case "burst", "racing", "storm":
 		setProcs(4)
